@@ -36,6 +36,7 @@ ReqInit(c) ==
     quietRun |-> c.quiet,      \* no solicitation is ever sent in this scenario and MinRtrAdvInterval >= 2 MinDelay:
                                \* multicast RA instants are then exactly the loop's request instants
     prevReq  |-> -1,           \* previous request instant in a quiet run
+    waitFirst|-> FALSE,        \* this session's loop waited before its first request (index of the waits shifted by one)
     strictMc |-> c.strict,     \* MinRtrAdvInterval exceeds the scenario horizon: after the loop's first request no
                                \* periodic trigger can occur before InitCap, so every multicast RA must be explained
     dialT    |-> 0,            \* time of the last successful (re)initialisation
@@ -113,7 +114,7 @@ OnDial(m, e) ==
       mp == [m0b EXCEPT !.postDone = FALSE, !.doneCls = {}, !.lastDialT = e.t, !.nBurst = burst] IN
   IF e.res # "ok" THEN mp
   ELSE LET m1 == IF Up(mp) THEN Flag(mp, "c11-dial-while-connection-open") ELSE mp IN
-       [m1 EXCEPT !.fcls = {}, !.k = e.k, !.nW = 0, !.credit = 1, !.dialT = e.t, !.lastTrig = -1, !.prevReq = -1, !.lastMc = -1, !.owedM = {}, !.owedU = <<>>, !.pend = <<>>,
+       [m1 EXCEPT !.fcls = {}, !.k = e.k, !.nW = 0, !.credit = 1, !.dialT = e.t, !.lastTrig = -1, !.prevReq = -1, !.waitFirst = FALSE, !.lastMc = -1, !.owedM = {}, !.owedU = <<>>, !.pend = <<>>,
                   !.faultAt = -1, !.reading = FALSE, !.nTO = 0, !.resumeAt = -1]
 
 OnDone(m, e) ==
@@ -229,10 +230,14 @@ OnWCall(m, e) ==
             ELSE IF sure /\ m.nOpen > 0 THEN Flag(m, "c08-final-ra-overtakes-write-in-flight")
             ELSE IF mc /\ ~initial /\ ~finalCand /\ m.lastMc # -1 /\ e.t - m.lastMc < MinDelay
                  THEN Flag(m, "c06-multicast-spacing")
+            \* the first periodic RA of a quiet session: the loop asks at once and the RA is held back to MIN_DELAY after the
+            \* initial one (what the code does), or the loop waits an allowed first wait before it asks (equally legal)
             ELSE IF mc /\ ~initial /\ ~finalCand /\ m.quietRun /\ m.nW = 1 /\ e.t # m.dialT + MinDelay
-                 THEN Flag(m, "c05-c06-first-periodic-ra-not-at-min-delay")
+                    /\ ~AllowedWait(0, m.miniv, m.maxiv, e.t - m.dialT)
+                 THEN Flag(m, "c05-c06-first-periodic-ra-neither-at-min-delay-nor-after-an-allowed-wait")
             ELSE IF mc /\ ~initial /\ ~finalCand /\ m.quietRun /\ m.nW >= 2
                     /\ ~AllowedWait(m.nW - 2, m.miniv, m.maxiv, e.t - m.prevReq)
+                    /\ ~(m.waitFirst /\ AllowedWait(m.nW - 1, m.miniv, m.maxiv, e.t - m.prevReq))
                  THEN Flag(m, "c05-wait-outside-allowed-range")
             ELSE IF mc /\ ~initial /\ ~finalCand /\ m.strictMc /\ e.t - m.dialT < InitCap /\ m.owedM = {} /\ m.credit = 0
                     /\ ~(m.lastTrig # -1 /\ e.t - m.lastTrig <= MinDelay)   \* a burst may legitimately get a second RA
@@ -246,7 +251,8 @@ OnWCall(m, e) ==
                 !.pend = IF used = 0 THEN @ ELSE DropAt(@, used),
                 !.lastMc = IF mc /\ ~finalCand THEN e.t ELSE @,
                 !.credit = IF mc /\ ~initial THEN 0 ELSE @,
-                !.prevReq = IF mc /\ ~finalCand THEN (IF m.nW <= 1 THEN m.dialT ELSE e.t) ELSE @,
+                !.prevReq = IF mc /\ ~finalCand THEN (IF m.nW <= 1 /\ (m.nW = 0 \/ e.t = m.dialT + MinDelay) THEN m.dialT ELSE e.t) ELSE @,
+                !.waitFirst = IF mc /\ ~finalCand /\ m.nW = 1 THEN e.t # m.dialT + MinDelay ELSE @,
                 !.owedM = IF mc THEN {} ELSE @,
                 !.owedU = IF ~mc /\ oi # 0 THEN DropAt(@, oi) ELSE @,
                 !.sureFinal = IF sure THEN @ + 1 ELSE @,
